@@ -229,12 +229,17 @@ func (s *Sched) finish(id int) {
 	}
 }
 
-// EnterCommit is called by participant id right before it calls Commit/Rollback.
-func (s *Sched) EnterCommit(id int) {
+// OpsDone is called by participant id when its operations are done (it may still pause before its Commit).
+func (s *Sched) OpsDone(id int) {
 	s.mu.Lock()
 	s.midOps[id] = false
 	s.commitPhase[id] = true
 	s.mu.Unlock()
+}
+
+// EnterCommit is called by participant id right before it calls Commit/Rollback.
+func (s *Sched) EnterCommit(id int) {
+	s.OpsDone(id)
 	if !s.GateCommits {
 		return
 	}
@@ -318,7 +323,9 @@ func (s *Sched) HookFor(id int) Hook {
 				}
 				s.Gated++
 				s.mu.Unlock()
-				handed := s.yieldToWhere(id, func(c int) bool { return s.committing[c] })
+				// (a committer that is not spinning on a refused lock first: it is the one the others wait for)
+				handed := s.yieldToWhere(id, func(c int) bool { return s.committing[c] && s.spins[c] == 0 }) ||
+					s.yieldToWhere(id, func(c int) bool { return s.committing[c] })
 				s.mu.Lock()
 				if !handed {
 					break
@@ -631,10 +638,13 @@ func (e *Env) RunConcurrent(stores []StoreOpts, progs []TxnProg, schedule []int,
 			return
 		}
 		if !co.FreeRunning {
-			s.EnterCommit(i)
+			// (the pause at Commit.begin comes before the commit gate: until the Commit really starts others may begin
+			// their operations, and the gate has to look at the participants as they are then)
+			s.OpsDone(i)
 			if len(co.Directed) > 0 {
 				s.yield(i, "Commit.begin")
 			}
+			s.EnterCommit(i)
 		}
 		if progs[i].End == "rollback" {
 			if err := t.Tx.Rollback(Ctx); err != nil {
